@@ -403,7 +403,7 @@ def gen_session(seed, idx, extended=False):
     for op in ops + [target]:
         if op.get('op') in ('count', 'interrupted') and rnd.random() < 0.12:
             e2 = dict(elections[op['profile']] if op['profile'] < len(elections) else elections[0])
-            e2['droop'] = gen.droop_tokens(op['options'])
+            e2['droop'] = gen.droop_tokens(op['options'], rnd)
             texts.append(gen.render_blt(e2, rnd))
             op['profile'] = len(texts) - 1
             op['share'] = False
